@@ -50,9 +50,18 @@ def _kb_jwt_sym(F, r3, kfn):
             continue
         kbroots = [("payload", e.result.t, "Ok", 0) for e in kb_dec]
         # typ == "kb+jwt"
-        typ_ok = any(a[0] == "eq" and c is True and any(x == ("lit", "kb+jwt") or (x[:1] == ("def",) and x[1].endswith("KB_JWT_HEADER_TYP")) for x in (a[1], a[2])) and any(SR.derives(x, r_) and "typ" in sym.fmt(x) for x in (a[1], a[2]) for r_ in kbroots)
-                     for (a, c, _, _) in q.decisions)
-        r3.require(typ_ok, (kfn, "check", "typ"), "success without `typ == \"kb+jwt\"` of the KB-JWT's protected header — path: …%s" % why)
+        # the header's typ is compared (==, established true) with a constant string; that string must be exactly "kb+jwt"
+        typ_vals = set()
+        for (a, c, _, _) in q.decisions:
+            if a[0] == "eq" and c is True and any(SR.derives(x, r_) and "typ" in sym.fmt(x) for x in (a[1], a[2]) for r_ in kbroots):
+                for x in (a[1], a[2]):
+                    if isinstance(x, tuple) and x[:1] == ("lit",) and isinstance(x[1], str):
+                        typ_vals.add(x[1])
+                    elif isinstance(x, tuple) and x[:1] == ("def",) and x[1].endswith("KB_JWT_HEADER_TYP"):
+                        typ_vals.add("<unevaluated %s>" % x[1])
+        r3.require(bool(typ_vals), (kfn, "check", "typ"), "success without `typ == \"kb+jwt\"` of the KB-JWT's protected header — path: …%s" % why)
+        for tv in sorted(typ_vals):
+            r3.require(tv == "kb+jwt", (kfn, "check", "typ-value", repr(tv)), "the KB-JWT's typ is required to equal %r, not \"kb+jwt\": a token typed exactly kb+jwt is rejected and one typed %r is accepted" % (tv, tv))
         # key lookup
         rms = [e for e in q.calls(r"resolve_method$") if q.succeeded(e) is True]
         if r3.require(len(rms) == 1, (kfn, "resolve"), "expected one successful resolve_method on an accepting path"):
